@@ -82,6 +82,8 @@ class Taint:
                 self.of(c)
             self.of(t.src)
             return self.of(t.elt)
+        if o == "grow":
+            return self.j([self.of(t.obj), self.of(t.val)])
         if o == "store":
             self.of(t.idx)
             return self.j([self.of(t.obj), self.of(t.val)])
